@@ -4,6 +4,7 @@ from fractions import Fraction
 from harness.core import *
 from harness import gen
 from harness.props._sp_util import *
+from harness.props import _c02_tol
 
 PID = "C02"
 LEVEL = "proof"
@@ -22,11 +23,12 @@ CF.update({
     "ntrop": CheckFn("newton-trop", "Model.Newton", "newton_check_trop", Tup(GrammarT, List(Tup(Nat, List(TropV))), Nat, NOBS["trop"])),
     "nbool": CheckFn("newton-bool", "Model.Newton", "newton_check_bool", Tup(GrammarT, List(Tup(Nat, List(Bool))), Nat, NOBS["bool"])),
 })
-CHECKFNS = list(CF.values())
+CHECKFNS = list(CF.values()) + _c02_tol.CHECKFNS
 ASSUMPTIONS = [
     "Real/Log values are judged against a certified enclosure [lo, u] of the least fixed point computed in exact rational arithmetic: lo = K rounded-down Kleene steps, u = inflated lo verified to be a pre-fixed point (Park); grammars for which no enclosure is found (near-critical or divergent) are discarded and counted",
     "only the direction 'budget exhausted => warning' is checked (the property does not forbid extra warnings)",
     "float32 is not exercised for recursive grammars",
+    "tolerance-ladder stream (harness/props/_c02_tol.py): nullary grammars X -> X X c | a X | b with dyadic weights, float64 only, Real and Log; the Log semiring's stopping distance is converted to an absolute one ((e^tol - 1) * x*) and the rounding allowances (1e-12 x* Real, 2e-11 x* Log; residual allowance 1% of tol + 1e-13 x* for the critical family; eps = 1e-11/(1-L), x20 for Log, for mag_check) are computed in Python and trusted; the pass-count estimate behind 'no warning may be issued' (kmax = 4 x estimate + 100) is computed in Python from the proved contraction (L^k x*, critical: 1/(c k)); rungs below 1e-12 x the value's magnitude and rungs needing more than 2500 passes (quick tier) are dropped, so critical grammars are run with fixed-point only at tol >= 1e-4..1e-6 and with newton down to 1e-12; vector / block systems at a ladder of tolerances are C11's vtol stream (single tol each), not repeated here",
     "linear-system stream: Real/Log weights are damped by 1/4 and about half the cells are exact zeros so that most systems are sub-critical; systems for which no enclosure is certified are discarded and counted (value_checks_inconclusive_discarded); Viterbi weights are <= 0 in the log domain (no positive cycles)",
     "Newton stream: the implementation is run with kmax in {1,2,3} and tol = 1e-300 (Bool: 0), so that the stop test can only fire at an exact fixed point, where further passes change nothing (C02_newton_stationary); its unconverged result is compared inside Coq with the model's exact kmax-th Newton iterate (Real/Log: rtol 1e-6, atol 1e-9; Viterbi 1e-9; Bool exact) and with the kmax-th Kleene iterate as lower bound (C02_newton_sandwich)",
 ]
@@ -293,8 +295,10 @@ def run(tier, seed):
     s0 = meta["real"][0] if meta["real"] else None
     ncov = newton_stream(tier, seed, violations)
     total += ncov["evaluations"]; nk += ncov["kernel_reevaluated"]
-    cov = dict(evaluations=total, distinct_nontrivial=len(distinct) + ncov["distinct_nontrivial"] + lcov["distinct_nontrivial"], newton_stream=ncov, linear_system_stream=lcov,
-               rule="main stream: random recursive FGG specs (self-loops, mutually recursive SCCs, linear/non-linear recursion, weight-one cycles in Viterbi/Bool; Real/Log weights damped by 1/4; one sixth chain grammars with deep best derivations; half with sparse PatternedTensor weights where the values allow; a fifth built in two stages with a query in between) x {Real, Log, Viterbi, Bool} x method rotating over fixed-point/newton/linear; one third of the runs with budget kmax in {1,2} (warning expected when the first kmax+1 stopping tests provably fail), the rest with kmax=400 (values judged against the certified enclosure); all grammars are recursive hence non-trivial; distinct by spec. Linear-system stream (gen.linear_system_spec): linearly recursive systems of 2-3 nonterminals, at least two of them NON-scalar (arity 1-2 over domains of size 1-3, different node labels => rectangular Jacobian blocks), self-loops on a random subset (diagonal blocks with off-diagonal entries), usually one SCC through all of them (multi_solve eliminates block by block: solves with a matrix right-hand side), otherwise block-triangular; dense blocks with about 30-80% exact zeros (mixed zero/non-zero rows and columns, whole zero rows), diagonal blocks (D(u) X(u)), arity-2 blocks T (x) I, two rules for one block, and half of the systems 'functional' (partial permutations inside a nonterminal, one or two entry points between nonterminals, one or two terminating cells: unique derivations, so a lost Jacobian entry shows in Bool/Viterbi too); shuffled rule order and label positions (all elimination orders) x {Real, Log: one of linear/newton/fixed-point rotating; Viterbi, Bool: linear AND newton} x dense/patterned weights x node-id styles, one seventh built in two stages; kmax=400, values judged against the certified enclosure; distinct by (spec, semiring, method). Newton stream: additionally non-linear variants of these systems (one rule with two component edges) so that Newton's inner multi_solve eliminates matrix blocks",
+    tcov = _c02_tol.stream(tier, seed, violations)
+    total += tcov["evaluations"]; nk += tcov["kernel_reevaluated"]
+    cov = dict(evaluations=total, distinct_nontrivial=len(distinct) + ncov["distinct_nontrivial"] + lcov["distinct_nontrivial"] + tcov["distinct_nontrivial"], newton_stream=ncov, tolerance_ladder_stream=tcov, linear_system_stream=lcov,
+               rule="main stream: random recursive FGG specs (self-loops, mutually recursive SCCs, linear/non-linear recursion, weight-one cycles in Viterbi/Bool; Real/Log weights damped by 1/4; one sixth chain grammars with deep best derivations; half with sparse PatternedTensor weights where the values allow; a fifth built in two stages with a query in between) x {Real, Log, Viterbi, Bool} x method rotating over fixed-point/newton/linear; one third of the runs with budget kmax in {1,2} (warning expected when the first kmax+1 stopping tests provably fail), the rest with kmax=400 (values judged against the certified enclosure); all grammars are recursive hence non-trivial; distinct by spec. Linear-system stream (gen.linear_system_spec): linearly recursive systems of 2-3 nonterminals, at least two of them NON-scalar (arity 1-2 over domains of size 1-3, different node labels => rectangular Jacobian blocks), self-loops on a random subset (diagonal blocks with off-diagonal entries), usually one SCC through all of them (multi_solve eliminates block by block: solves with a matrix right-hand side), otherwise block-triangular; dense blocks with about 30-80% exact zeros (mixed zero/non-zero rows and columns, whole zero rows), diagonal blocks (D(u) X(u)), arity-2 blocks T (x) I, two rules for one block, and half of the systems 'functional' (partial permutations inside a nonterminal, one or two entry points between nonterminals, one or two terminating cells: unique derivations, so a lost Jacobian entry shows in Bool/Viterbi too); shuffled rule order and label positions (all elimination orders) x {Real, Log: one of linear/newton/fixed-point rotating; Viterbi, Bool: linear AND newton} x dense/patterned weights x node-id styles, one seventh built in two stages; kmax=400, values judged against the certified enclosure; distinct by (spec, semiring, method). Newton stream: additionally non-linear variants of these systems (one rule with two component edges) so that Newton's inner multi_solve eliminates matrix blocks. Tolerance-ladder stream (_c02_tol.py): slowly converging float64 grammars X -> X X c | a X | b -- linear with contraction 63/64, 127/128 (thorough: to 1023/1024) and values 2^-10..2^16, near-critical quadratic with F'(x*) = 1 - 2^-6 / 1 - 2^-7 and x* = 2^-6..2^7, CRITICAL quadratic ((1-a)^2 = 4cb, F'(x*) = 1, e.g. S -> 1/2 S S | 1/2) with x* = 1/32..32 -- x {Real, Log}(dtype=torch.double) x {fixed-point, newton}, each run at the ladder tol = 1e-4, 1e-6, 1e-8, 1e-10, 1e-12 (rungs needing > 2500 passes or below 1e-12 x* dropped); every returned value judged in Coq against the proved stop bound FOR ITS tol (tol_check / mag_check / crit_check), no 'maximum iteration' warning allowed (kmax = 4 x proved pass count + 100), values non-decreasing along the ladder (ladder_check); distinct = ladders of >= 2 rungs",
                case_kinds=kinds, value_checks_conclusive=conclusive, value_checks_inconclusive_discarded=inconclusive,
                feature_histogram=feats, kernel_reevaluated=nk, kleene_steps=K_ENCL,
                samples=([dict(spec=gen.spec_jsonable(s0[0]), semiring=repr(s0[1]), method=s0[2], tol=s0[3], kmax=s0[4], observed=s0[5])] if s0 else [])
@@ -307,6 +311,9 @@ def run(tier, seed):
 def replay(path):
     r = json.load(open(path)); c = r["case"]
     spec = gen.spec_from_json(c["spec"])
+    if c.get("stream") == "tol-ladder":
+        print("tolerance-ladder case: re-run `bin/check C02 quick` with the recorded seed (VERIF_N=3 VERIF_N_LINSYS=1 VERIF_N_NEWTON=6 keeps only this stream at full size)")
+        return 1
     if c.get("stream") == "newton":
         sr = [s for s in NEWTON_SRS if repr(s) == c["semiring"]][0]
         val, warned = newton_case(spec, sr, c["kmax"])
@@ -324,7 +331,7 @@ def replay(path):
 
 MANIFEST = dict(
     level="proof",
-    text="Coq: Kleene iterates of the grammar's equations are the bounded-depth derivation sums (C01's theorem), are monotone, stay below every pre-fixed point (Park), also when rounded down; hence [K rounded Kleene steps, verified pre-fixed point] encloses the least fixed point. Every value returned by fixed-point / newton / linear on generated recursive FGGs must meet that enclosure (exactly in Bool/Viterbi); budget-exhaustion warnings and the ValueError of method='linear' are compared with the control-flow model. Also proved: the loop shapes of fixed_point / newton warn iff the stopping test never held within the budget (the pre-repair newton loop never warns), ValueError iff method=linear meets a rule with two component edges, linearly recursive components are affine with linear's J0/F0 and multi_solve(J0, F0) -- what method='linear' and newton's downgrade return -- is their least fixed point in every ordered star-semiring (C02_linear_is_least_fixed_point, composed with C09_multi_solve_refines), SCC-by-SCC exact solution is the global least fixed point, and verdict 0 of the check implies the observed values are (Bool) / enclose (Viterbi) / meet a certified enclosure of (Real, Log) the least fixed point. Newton (tier B): Model/Newton.v models the loop of sum_product.py:newton (F0 = max(F x, x); dX = multi_solve(J x, F0 - x); x += dX; x = max(x, F0); stop test; for/else warning) with the code-shaped Jacobian and multi_solve_model; proved for all ordered commutative star-semirings (premises about sub/maximum proved for Bool, Real, Viterbi): the Taylor inequality F(x) + J(x).d <= F(x+d) for rules with any number of edges, multi_solve on the tabulated blocks = least solution of y = A y + b, and the Esparza-Kiefer-Luttenberger sandwich Kleene_k <= Newton_k <= every pre-fixed point with Newton_k increasing and Newton_k <= F(Newton_k) (C02_newton_sandwich); both maximum_ clamps are no-ops in exact arithmetic; every iterate lies below the upper end of a certified enclosure and from iterate 4j on inside it; exact stop test + no warning => the result is the least fixed point; one pass solves a linearly recursive component exactly. Linear-system stream: linearly recursive components of several non-scalar nonterminals with self-loops and Jacobian blocks holding exact zeros next to non-zeros (the block elimination of multi_solve, i.e. Semiring.solve_thunks with a MATRIX right-hand side) are generated on purpose, for method linear and newton in Log, Viterbi, Bool (Real as control), and judged by the same enclosure oracle; about that pass: skipping it when the whole pivot row is zero is sound in every semiring (C02_solve_skip_all_zero_sound), testing for SOME zero entry is the same for one column (C02_solve_skip_some_zero_single_column: vector and (n,1) right-hand sides cannot tell) and wrong for two (C02_solve_skip_some_zero_refuted). Correspondence: method='newton' is run with kmax in {1,2,3} (stop test disabled by tol=1e-300) on non-linear recursive grammars in Real, Log, Viterbi, Bool and its unconverged result is compared inside Coq with the model's exact kmax-th Newton iterate (rtol 1e-6; Bool exact) and with the kmax-th Kleene iterate as lower bound.",
+    text="Coq: Kleene iterates of the grammar's equations are the bounded-depth derivation sums (C01's theorem), are monotone, stay below every pre-fixed point (Park), also when rounded down; hence [K rounded Kleene steps, verified pre-fixed point] encloses the least fixed point. Every value returned by fixed-point / newton / linear on generated recursive FGGs must meet that enclosure (exactly in Bool/Viterbi); budget-exhaustion warnings and the ValueError of method='linear' are compared with the control-flow model. Also proved: the loop shapes of fixed_point / newton warn iff the stopping test never held within the budget (the pre-repair newton loop never warns), ValueError iff method=linear meets a rule with two component edges, linearly recursive components are affine with linear's J0/F0 and multi_solve(J0, F0) -- what method='linear' and newton's downgrade return -- is their least fixed point in every ordered star-semiring (C02_linear_is_least_fixed_point, composed with C09_multi_solve_refines), SCC-by-SCC exact solution is the global least fixed point, and verdict 0 of the check implies the observed values are (Bool) / enclose (Viterbi) / meet a certified enclosure of (Real, Log) the least fixed point. Newton (tier B): Model/Newton.v models the loop of sum_product.py:newton (F0 = max(F x, x); dX = multi_solve(J x, F0 - x); x += dX; x = max(x, F0); stop test; for/else warning) with the code-shaped Jacobian and multi_solve_model; proved for all ordered commutative star-semirings (premises about sub/maximum proved for Bool, Real, Viterbi): the Taylor inequality F(x) + J(x).d <= F(x+d) for rules with any number of edges, multi_solve on the tabulated blocks = least solution of y = A y + b, and the Esparza-Kiefer-Luttenberger sandwich Kleene_k <= Newton_k <= every pre-fixed point with Newton_k increasing and Newton_k <= F(Newton_k) (C02_newton_sandwich); both maximum_ clamps are no-ops in exact arithmetic; every iterate lies below the upper end of a certified enclosure and from iterate 4j on inside it; exact stop test + no warning => the result is the least fixed point; one pass solves a linearly recursive component exactly. Linear-system stream: linearly recursive components of several non-scalar nonterminals with self-loops and Jacobian blocks holding exact zeros next to non-zeros (the block elimination of multi_solve, i.e. Semiring.solve_thunks with a MATRIX right-hand side) are generated on purpose, for method linear and newton in Log, Viterbi, Bool (Real as control), and judged by the same enclosure oracle; about that pass: skipping it when the whole pivot row is zero is sound in every semiring (C02_solve_skip_all_zero_sound), testing for SOME zero entry is the same for one column (C02_solve_skip_some_zero_single_column: vector and (n,1) right-hand sides cannot tell) and wrong for two (C02_solve_skip_some_zero_refuted). Tolerance ('with an error that vanishes as tol does'): for the critical scalar system x = c x^2 + a x + b, (1-a)^2 = 4cb, the residual F(x) - x equals c (x* - x)^2 (C02_critical_residual), so the stopping test bounds the error by sqrt(tol/c) (C02_critical_stop_bound), the Kleene iterates increase below x* (C02_critical_iterates_below), Newton halves the error (C02_critical_newton_halves), crit_check accepts what fixed_point / newton may return and only values with c (x* - delta - x)^2 <= tol (C02_crit_check_sound / _accepts_fixed_point / _accepts_only / _rejects); a smaller tol cannot stop earlier, so values along a tolerance ladder do not decrease (C02_ladder_step_monotone, C02_ladder_check_rejects); for contraction < 1 the bounds are C11's (tol_check, mag_check). fixed-point and newton are run on slowly converging float64 Real/Log grammars at tol = 1e-4..1e-12 and every result is judged in Coq against the bound for its tol. Correspondence: method='newton' is run with kmax in {1,2,3} (stop test disabled by tol=1e-300) on non-linear recursive grammars in Real, Log, Viterbi, Bool and its unconverged result is compared inside Coq with the model's exact kmax-th Newton iterate (rtol 1e-6; Bool exact) and with the kmax-th Kleene iterate as lower bound.",
     note="Trusted: Coq kernel, extraction cross-checked by vm_compute, harness; converged newton results are judged by the enclosure oracle, unconverged ones (kmax <= 3) by the model of the iteration; grammars without a certified enclosure are discarded (counted in evidence).",
     technique="Coq proof (Park induction, Kleene = derivation sums, Taylor inequality + least solutions of linear systems for the Newton sandwich) + certified-enclosure oracle on implementation outputs + control-flow correspondence + model of Newton's iterates compared after a fixed number of passes",
     design_ref="DESIGN.md section 6, C02")
